@@ -46,6 +46,10 @@ func ToDate(i interface{}) (interface{}, error) {
 		return val, nil
 
 	case time.Time:
+		if val.Year() < 0 || val.Year() > 9999 {
+			return nil, fmt.Errorf("%w: %#v (%T)", ErrUnableToCastToDate, i, i)
+		}
+
 		return val.Format("2006-01-02"), nil
 
 	case string:
@@ -75,7 +79,7 @@ func ToDate(i interface{}) (interface{}, error) {
 		return t, nil
 
 	case int64:
-		return time.Unix(val, 0).Format("2006-01-02"), nil
+		return ToDate(time.Unix(val, 0))
 
 	default:
 		s, err := ToString(val)
